@@ -1683,6 +1683,12 @@ def normalise_signatures(repo):
                     break
             if not ok:
                 continue
+            # a call that relies on a default which the reference signature does not have gets the (constant) default made explicit
+            for _c, bound_ in plans:
+                for c_ in must_be_passed:
+                    if c_ not in bound_ and isinstance(cur_defaults.get(c_), ast.Constant):
+                        import copy as _c6
+                        bound_[c_] = (_c6.deepcopy(cur_defaults[c_]), True)
             if any(c_ not in bound_ for c_ in must_be_passed for _c, bound_ in plans):
                 continue
             inv = {v: k for k, v in rename.items()}
